@@ -4,6 +4,7 @@
 // model (DESIGN.md Appendix B).
 #include <cmath>
 #include <set>
+#include <tuple>
 #include "../daemon.h"
 #include "../model/refstats.h"
 #include "../wrap.h"
@@ -268,9 +269,18 @@ static Json::Value genC15(Rng& rng) {
       int64_t b2 = 1LL << 40;
       Json::Value sp = c15Spec(rng, p, b2, nextPid);
       sp.removeMember("path");
-      e["op"]["op"] = "set";
-      e["op"]["cg"] = p;
-      e["op"]["v"] = sp;
+      if (p.find('/') != std::string::npos && rng.chance(0.5)) {
+        // a new sibling appears under p's parent (its protection joins the
+        // denominator the siblings share)
+        sp["path"] = p.substr(0, p.rfind('/')) + "/zz" + std::to_string(i);
+        sp["min"] = (Json::Int64)(1LL << (int)rng.range(20, 34));
+        e["op"]["op"] = "mk";
+        e["op"]["v"] = sp;
+      } else {
+        e["op"]["op"] = "set";
+        e["op"]["cg"] = p;
+        e["op"]["v"] = sp;
+      }
       plan["edits"].append(e);
       // an io.stat that is empty until the edit gives it its first device
       if (rng.chance(0.5))
@@ -335,9 +345,18 @@ static void runC15() {
   for (const auto& t : R.plan["temporal_skip"])
     temporal.skipTicks.insert(t.asInt());
   const std::set<int> skipTicks = temporal.skipTicks;
+  struct Share {
+    std::string rel;
+    ld raw, prot;
+  };
+  std::map<std::tuple<int, std::string, std::string>, std::vector<Share>> sharing;
   std::set<int> editTicks;
-  for (const auto& ed : R.plan["edits"])
+  std::set<std::pair<int, std::string>> madeMidTick;
+  for (const auto& ed : R.plan["edits"]) {
     editTicks.insert(ed["tick"].asInt());
+    if (ed["op"]["op"].asString() == "mk")
+      madeMidTick.insert({ed["tick"].asInt(), ed["op"]["v"]["path"].asString()});
+  }
   g_onTick = [&]() {
     temporal.sample(W, R.tick);
     snaps.push_back(W);
@@ -405,6 +424,15 @@ static void runC15() {
     }
     std::string rel = e.extra["rel"].asString();
     Cg* c = w.find(rel);
+    bool midTickMade = false;
+    for (auto& m : madeMidTick)
+      if (m.first == t && isDescendantOrSelf(rel, m.second))
+        midTickMade = true; // the new cgroup or a parent created along with it
+    if (!c && midTickMade) {
+      // created in the middle of this tick: not in the tick-start snapshot
+      compared++;
+      continue;
+    }
     if (!c) {
       violate("C15.stale-cgroup",
               "tick " + std::to_string(t) + ": statistics reported for /" + rel +
@@ -422,6 +450,18 @@ static void runC15() {
     // obtained is judged (which content a reader saw depends on when it
     // read); afterwards the temporal series are not judged either
     if (editTicks.count(t)) {
+      // what must hold whatever the files did: the children of one parent
+      // share one scaling factor P/R within the tick
+      const Json::Value& v = e.extra["vals"];
+      if (!rel.empty() && v["memory_protection"].isNumeric() &&
+          v["current_usage"].isNumeric() && v["memory_min"].isNumeric() &&
+          v["memory_low"].isNumeric()) {
+        ld usage = (ld)v["current_usage"].asInt64();
+        ld raw = std::min(usage, std::max((ld)v["memory_min"].asInt64(),
+                                          (ld)v["memory_low"].asInt64()));
+        sharing[{t, e.a, parentRel(rel)}].push_back(
+            {rel, raw, (ld)v["memory_protection"].asInt64()});
+      }
       compared++;
       continue;
     }
@@ -618,6 +658,29 @@ static void runC15() {
       incOfId[id] = c->inc;
     }
     compared++;
+  }
+  for (auto& kv : sharing) {
+    auto& kids = kv.second;
+    for (size_t i = 0; i < kids.size(); i++)
+      for (size_t j = i + 1; j < kids.size(); j++) {
+        const Share& a = kids[i];
+        const Share& b = kids[j];
+        if (a.raw <= 0 || b.raw <= 0 || std::get<2>(kv.first).empty())
+          continue; // top level: no scaling
+        ld lhs = a.prot * b.raw, rhs = b.prot * a.raw;
+        if (fabsl(lhs - rhs) > 2 * (a.raw + b.raw) + 1e-9L * fabsl(lhs)) {
+          violate("C15.siblings-share-one-factor",
+                  "tick " + std::to_string(std::get<0>(kv.first)) + " (" +
+                      std::get<1>(kv.first) + "): /" + a.rel +
+                      " has protection " + std::to_string((double)a.prot) +
+                      " of raw " + std::to_string((double)a.raw) + ", its sibling /" +
+                      b.rel + " " + std::to_string((double)b.prot) + " of " +
+                      std::to_string((double)b.raw) +
+                      ": the children of one parent were not scaled by the same "
+                      "factor within the tick");
+          return;
+        }
+      }
   }
   probe("cgroup-snapshots-compared", compared);
   probe("values-compared", values);
